@@ -494,6 +494,18 @@ class Smoothing2D(_ConvN):
         return _ConvN.coq(cls._p(p))
 
 
+def _round_half_even(x):
+    """numpy.round as documented: halves go to the nearest EVEN integer."""
+    x = frac(x)
+    f = x.numerator // x.denominator
+    r = x - f
+    if r < Fraction(1, 2):
+        return f
+    if r > Fraction(1, 2):
+        return f + 1
+    return f if f % 2 == 0 else f + 1
+
+
 def _interp_pos(n, pos):
     return [Fraction(n - 1) - Fraction(1, 10 ** 10) if frac(x) >= n - 1 else frac(x) for x in pos]
 
@@ -510,7 +522,7 @@ class Interp(Axis1D):
         M = np.zeros((len(pos), n))
         if p["kind"] == "nearest":
             for i, x in enumerate(pos):
-                M[i, int(np.floor(x + 0.5))] = 1
+                M[i, _round_half_even(x)] = 1
         else:
             for i, x in enumerate(_interp_pos(n, pos)):
                 l = int(x // 1)
@@ -658,7 +670,7 @@ def grid(tier):
             add("Roll", dims=[n], shift=s)
     for d in nds:
         for ax in _axes_of(d):
-            for s in (1, -2):
+            for s in (1, -2, d[ax] + 1, -2 * d[ax] - 1, 7):
                 add("Roll", dims=d, axis=ax, shift=s)
     # ---- Sum
     for d in nds + [[5, 1], [1, 1]]:
@@ -769,6 +781,23 @@ def grid(tier):
         add("Interp", dims=[n], kind="linear", iava=[0.5, n - 1], scalar_dims=True)         # last sample: forced to n-1-eps
         if n > 3:
             add("Interp", dims=[n], kind="linear", iava=[n - 2.125, 1.0, n + 0.5])        # beyond the last sample, unsorted
+    # nearest with exact halves, even and odd floors (np.round rounds half to even: 0.5->0, 1.5->2, 2.5->2)
+    for n in (sizes[1:] if th else [2, 3, 5, 8]):
+        add("Interp", dims=[n], kind="nearest", iava=[0.5])
+        if n >= 3:
+            add("Interp", dims=[n], kind="nearest", iava=[0.5, 1.5])
+            add("Interp", dims=[n], kind="nearest", iava=[n - 1.5])
+        if n >= 5:
+            add("Interp", dims=[n], kind="nearest", iava=[2.5, 3.5, 0.5, 0.75])
+        if n >= 8:
+            add("Interp", dims=[n], kind="nearest", iava=[6.5, 4.5, 1.5, 0.25])
+    for d in nds:
+        for ax in _axes_of(d):
+            n = d[ax]
+            if n >= 2:
+                add("Interp", dims=d, axis=ax, kind="nearest", iava=[0.5, 1.5] if n >= 3 else [0.5])
+            if n >= 4:
+                add("Interp", dims=d, axis=ax, kind="nearest", iava=[2.5, 0.5])
     # two or more distinct positions in one cell [l, l+1) (adjoint must accumulate)
     add("Interp", dims=[5], kind="linear", iava=[0.25, 0.5, 2.0])
     add("Interp", dims=[4], kind="linear", iava=[2.75, 2.125, 2.5, 0.5])
